@@ -285,3 +285,250 @@ func c05Run(line string) string {
 	}
 	return strings.Join(outs, ";")
 }
+
+// ---------------------------------------------------------------- generator
+
+var c05Alphabets = [][]byte{
+	{0x00, 0x01, 0x10},
+	{0x10, 0x11, 0x1f},
+	{0x00, 0x0f, 0xf0, 0xff},
+	{0x12, 0x13, 0x30, 0x3f},
+	{0x00, 0x01},
+	{0xab, 0xa0, 0x0a, 0xb0},
+}
+
+// value sizes around the inline-node threshold (encoding < 32 bytes) and the V1 hashing threshold
+var c05ValueSizes = []int{0, 0, 1, 1, 2, 8, 24, 27, 28, 30, 31, 32, 33, 33, 40, 64}
+
+func c05Value(r *vhRng) []byte {
+	n := c05ValueSizes[r.Intn(len(c05ValueSizes))]
+	v := make([]byte, n)
+	b := byte(r.Intn(256))
+	for i := range v {
+		v[i] = b + byte(i)
+	}
+	return v
+}
+
+func c05Key(r *vhRng, alpha []byte, maxLen int) []byte {
+	n := r.Intn(maxLen + 1)
+	k := make([]byte, n)
+	for i := range k {
+		k[i] = alpha[r.Intn(len(alpha))]
+	}
+	return k
+}
+
+type c05Gen struct {
+	r     *vhRng
+	alpha []byte
+	pool  [][]byte
+	state map[string][]byte // content of the current trie
+	keys  []string          // keys of state in insertion order
+	ref   map[string][]byte // content at the last `gen`
+	ops   []string
+}
+
+func (g *c05Gen) poolKey() []byte { return g.pool[g.r.Intn(len(g.pool))] }
+
+func (g *c05Gen) presentKey() ([]byte, bool) {
+	if len(g.keys) == 0 {
+		return nil, false
+	}
+	return []byte(g.keys[g.r.Intn(len(g.keys))]), true
+}
+
+// a key to ask about: mostly present; otherwise a pool key, a prefix or an extension of a present
+// key, or a sibling (last byte / last nibble changed)
+func (g *c05Gen) queryKey() []byte {
+	r := g.r
+	k, ok := g.presentKey()
+	if !ok || r.Chance(1, 10) {
+		return g.poolKey()
+	}
+	switch r.Intn(12) {
+	case 0:
+		return append([]byte{}, k[:r.Intn(len(k)+1)]...)
+	case 1:
+		return append(append([]byte{}, k...), c05Key(r, g.alpha, 2)...)
+	case 2:
+		if len(k) > 0 {
+			s := append([]byte{}, k...)
+			s[len(s)-1] ^= byte(1 + r.Intn(15))
+			return s
+		}
+	case 3:
+		if len(k) > 0 {
+			s := append([]byte{}, k...)
+			s[r.Intn(len(s))] ^= byte(0x10 << uint(r.Intn(4)))
+			return s
+		}
+	}
+	return k
+}
+
+func (g *c05Gen) put(k, v []byte) {
+	if _, ok := g.state[string(k)]; !ok {
+		g.keys = append(g.keys, string(k))
+	}
+	g.state[string(k)] = v
+	g.ops = append(g.ops, "put "+vhHex(k)+" "+vhHex(v))
+}
+
+func (g *c05Gen) keyList(n int) string {
+	if n == 0 {
+		return "_"
+	}
+	parts := make([]string, n)
+	for i := range parts {
+		parts[i] = vhHex(g.queryKey())
+	}
+	return strings.Join(parts, ",")
+}
+
+// a value to claim for k under the reference state
+func (g *c05Gen) claim(k []byte) []byte {
+	r := g.r
+	tv, present := g.ref[string(k)]
+	switch r.Intn(12) {
+	case 0:
+		return []byte{}
+	case 1:
+		return c05Value(r)
+	case 2:
+		if present {
+			h := common.MustBlake2bHash(tv)
+			return h[:]
+		}
+	case 3:
+		if present && len(tv) > 0 {
+			w := append([]byte{}, tv...)
+			w[r.Intn(len(w))] ^= 1
+			return w
+		}
+	case 4:
+		if o, ok := g.presentKey(); ok {
+			return g.state[string(o)]
+		}
+	case 5:
+		if present {
+			return append(append([]byte{}, tv...), 0)
+		}
+	}
+	if present {
+		return tv
+	}
+	if cur, ok := g.state[string(k)]; ok {
+		return cur
+	}
+	return []byte{1}
+}
+
+func (g *c05Gen) edit() {
+	r := g.r
+	switch r.Intn(12) {
+	case 0, 1, 2:
+		g.ops = append(g.ops, fmt.Sprintf("drop %d", r.Intn(8)))
+	case 3:
+		g.ops = append(g.ops, fmt.Sprintf("dup %d %d", r.Intn(8), r.Intn(9)))
+	case 4, 5:
+		g.ops = append(g.ops, fmt.Sprintf("flip %d %d %02x", r.Intn(8), r.Intn(80), 1<<uint(r.Intn(8))))
+	case 6:
+		g.ops = append(g.ops, fmt.Sprintf("rot %d", 1+r.Intn(5)))
+	case 7:
+		raws := []string{"00", "-", "01", "4000", "41000400", "8000", "c10000" + "04ff", "03"}
+		op := "raw "
+		if r.Bool() {
+			op = "rawf "
+		}
+		g.ops = append(g.ops, op+raws[r.Intn(len(raws))])
+	case 8:
+		// a proof item that is the value of some key (what a hashed value needs)
+		if k, ok := g.presentKey(); ok {
+			g.ops = append(g.ops, "raw "+vhHex(g.state[k2s(k)]))
+		}
+	default:
+		// nodes of a different trie: change the state, generate again and splice
+		for i := 0; i < 1+r.Intn(2); i++ {
+			k := g.poolKey()
+			if o, ok := g.presentKey(); ok && r.Bool() {
+				k = o
+			}
+			g.put(k, c05Value(r))
+		}
+		g.ops = append(g.ops, "genx "+g.keyList(1+r.Intn(2)))
+	}
+}
+
+func k2s(k []byte) string { return string(k) }
+
+func c05GenCase(r *vhRng) string {
+	g := &c05Gen{r: r, state: map[string][]byte{}, ref: map[string][]byte{}}
+	if r.Chance(1, 8) {
+		g.alpha = r.Bytes(3)
+	} else {
+		g.alpha = c05Alphabets[r.Intn(len(c05Alphabets))]
+	}
+	// pool: short keys sharing nibble prefixes, sometimes on a long common stem (long partial keys)
+	var stem []byte
+	if r.Chance(1, 5) {
+		stem = c05Key(r, g.alpha, 0)
+		for i := r.Pick(7, 8, 15, 16, 31, 33); i > 0; i-- {
+			stem = append(stem, g.alpha[r.Intn(len(g.alpha))])
+		}
+	}
+	np := 3 + r.Intn(7)
+	for i := 0; i < np; i++ {
+		var k []byte
+		switch {
+		case len(g.pool) > 0 && r.Chance(1, 3):
+			k = append(append([]byte{}, g.poolKey()...), c05Key(r, g.alpha, 2)...)
+		case len(g.pool) > 0 && r.Chance(1, 6):
+			b := g.poolKey()
+			k = append([]byte{}, b[:r.Intn(len(b)+1)]...)
+		default:
+			k = append(append([]byte{}, stem...), c05Key(r, g.alpha, 3)...)
+		}
+		g.pool = append(g.pool, k)
+	}
+	nput := 1 + r.Intn(8)
+	if r.Chance(1, 25) {
+		nput = 0
+	}
+	for i := 0; i < nput; i++ {
+		g.put(g.poolKey(), c05Value(r))
+	}
+	// the honest proof
+	g.ops = append(g.ops, "gen "+g.keyList(r.Pick(1, 1, 1, 2, 2, 3, 0)))
+	for k, v := range g.state {
+		g.ref[k] = v
+	}
+	genKeys := strings.Split(strings.TrimPrefix(g.ops[len(g.ops)-1], "gen "), ",")
+	verify := func(n int) {
+		for i := 0; i < n; i++ {
+			var k []byte
+			if genKeys[0] != "_" && !r.Chance(1, 5) {
+				k = vhUnhex(genKeys[r.Intn(len(genKeys))])
+			} else {
+				k = g.queryKey()
+			}
+			g.ops = append(g.ops, "ver "+vhHex(k)+" "+vhHex(g.claim(k)))
+		}
+	}
+	verify(1 + r.Intn(2))
+	// adversarial edits, each followed by verifications
+	for e := r.Pick(0, 1, 1, 2, 3); e > 0; e-- {
+		g.edit()
+		if r.Chance(1, 12) {
+			g.ops = append(g.ops, fmt.Sprintf("rootx %d", r.Intn(8)))
+		}
+		verify(1 + r.Intn(2))
+	}
+	ver := "0"
+	if r.Chance(3, 5) {
+		ver = "1"
+	}
+	return ver + c05ScaleMode() + "|" + strings.Join(g.ops, ";")
+}
+
+func TestVerifC05(t *testing.T) { vhMain(t, c05GenCase, c05Run) }
